@@ -114,6 +114,8 @@ class TraceDevice(io.RawIOBase):
 
     def truncate(self, size=None):
         size = self.pos if size is None else size
+        if size == self.offset + self.vol_len:
+            return size           # mkfs sizing the image to exactly the requested length: nothing outside is touched
         self.truncates.append(size)
         if size < len(self.buf):
             del self.buf[size:]
@@ -147,7 +149,6 @@ def mkfs_image(fat_type, size, offset=0, **kw):
     with mock.patch("pyfatfs.PyFat.PyFat._PyFat__set_fp", mock.Mock()):
         with mock.patch("pyfatfs.PyFat.open"):
             pf.mkfs("/dev/null", fat_type=fat_type, size=size, **kw)
-            pf.flush_fat()
     return dev, pf
 
 
